@@ -195,7 +195,8 @@ def kdg_wiring_unit(res):
         dag = [e for e in log if e[0] == "dag?"]
         if any(e[1][0] is not dgm for e in dag):
             return False
-        return z3.And(bool_term(argl(c[0], 1, "flag_dependencies")) == flag, bool_term(argl(l_[0], 2, "flag_dependencies")) == flag,
+        bt = lambda x: bool_term(False if x is None else x)  # an omitted argument is create_DG's / the search's default (False)
+        return z3.And(bt(argl(c[0], 1, "flag_dependencies")) == flag, bt(argl(l_[0], 2, "flag_dependencies")) == flag,
                       num_term(argl(l_[0], 1, "timeout"))[0] == tmo)
 
     res.add_paths(paths, post, kind="KernelDG/wiring")
